@@ -366,6 +366,73 @@ Definition case_valid (c : case) : bool :=
 
 Definition c19_check_valid (c : case) : bool := case_valid c.
 
+(* What tskit CHECKS on entry since fix e0eff6d: tsk_table_collection_check_integrity(self, 0)
+   (tables.c 10609-10678 for the edge table with options = 0): ids in range, finite coordinates with
+   0 <= left < right <= L, time[child] < time[parent].  [integrity0] is that check on the columns the
+   IBD finder reads (plus equal column lengths, which the table structure guarantees). *)
+Definition integrity0 (c : case) : bool :=
+  (0 <=? cL c) && (length (cflags c) =? length (ctimes c))%nat
+  && forallb (edge_wf (num_nodes c) (cL c)) (cedges c)
+  && forallb (fun e => time_of (ctimes c) (echild e) <? time_of (ctimes c) (eparent e)) (cedges c).
+
+(* What is NOT checked with options = 0 and is ASSUMED by the refinement theorem: edges sorted by parent
+   time (TSK_CHECK_EDGE_ORDERING) and at most one parent per node and position (TSK_CHECK_TREES). *)
+Definition sorted_and_tree (c : case) : bool :=
+  sortedb (ctimes c) (cedges c) && forallb (valid_atb (ctimes c) (cedges c)) (zrange 0 (Z.to_nat (cL c))).
+
+(* Argument checks of tsk_ibd_finder_init / init_within / init_between (ids in range, no duplicates,
+   non-negative thresholds) *)
+Definition args_ok (c : case) : bool :=
+  groups_wf c && (0 <=? cminspan2 c) && match cmaxtime2 c with Some m => 0 <=? m | None => true end.
+
+(* ------------------------------------------------------------------------------------ *)
+(* Python facade: tskit.IdentitySegments / IdentitySegmentList (python/tskit/tables.py
+   2556-2750) over the low-level classes of _tskitmodule.c (IdentitySegments_get, _get_keys,
+   _get_num_pairs, IdentitySegmentList_get_... getters), as functions of the container model          *)
+(* ------------------------------------------------------------------------------------ *)
+
+Inductive pyres (A : Type) : Type :=
+| PyOk (a : A)
+| PyKeyError                      (* "Sample pair not found" *)
+| PyNodeOutOfBounds               (* LibraryError: TSK_ERR_NODE_OUT_OF_BOUNDS *)
+| PySameNodes                     (* LibraryError: TSK_ERR_SAME_NODES_IN_PAIR *)
+| PyPairsNotStored                (* IdentityPairsNotStoredError *)
+| PySegmentsNotStored.            (* IdentitySegmentsNotStoredError *)
+Arguments PyOk {A} a.
+Arguments PyKeyError {A}.
+Arguments PyNodeOutOfBounds {A}.
+Arguments PySameNodes {A}.
+Arguments PyPairsNotStored {A}.
+Arguments PySegmentsNotStored {A}.
+
+(* IdentitySegments.num_segments / total_span: always available *)
+Definition py_num_segments (st : store) : Z := st_n st.
+Definition py_total_span (st : store) : Z := st_span st.
+
+(* IdentitySegments.num_pairs, __len__ *)
+Definition py_num_pairs (st : store) : pyres Z :=
+  if st_pairs st then PyOk (store_num_pairs st) else PyPairsNotStored.
+
+(* IdentitySegments.pairs, __iter__ (tsk_identity_segments_get_keys) *)
+Definition py_pairs (st : store) : pyres (list (Z * Z)) :=
+  if st_pairs st then PyOk (store_keys st) else PyPairsNotStored.
+
+(* IdentitySegments.__getitem__((a, b)): tsk_identity_segments_get_key (8331-8349) then
+   tsk_identity_segments_get (8603-8626), then KeyError when the list is NULL *)
+Definition py_getitem (st : store) (a b : Z) : pyres plist :=
+  let N := st_N st in
+  if (a <? 0) || (b <? 0) || (N <=? a) || (N <=? b) then PyNodeOutOfBounds else
+  if a =? b then PySameNodes else
+  if negb (st_pairs st) then PyPairsNotStored else
+  match store_get st a b with Some p => PyOk p | None => PyKeyError end.
+
+(* IdentitySegmentList: len, total_span always; left/right/node arrays and iteration only with
+   store_segments *)
+Definition py_list_len (p : plist) : Z := pl_n p.
+Definition py_list_total_span (p : plist) : Z := pl_span p.
+Definition py_list_segments (st : store) (p : plist) : pyres (list seg) :=
+  if st_segs st then PyOk (pl_segs p) else PySegmentsNotStored.
+
 (* ------------------------------------------------------------------------------------ *)
 (* comparison helpers for the per-run correspondence                                     *)
 (* ------------------------------------------------------------------------------------ *)
